@@ -97,6 +97,69 @@ def names_level(ck, dist):
     return corr
 
 
+# ------------------------------------------------------------------ mid-level programs (type-converting transfers)
+def mll_level(ck, dist, rounds):
+    """The same mid-level program (the array life cycles of checks/C06.py: every accepted (entry point, file type, memory
+    type), new / existing x full / partial file range x full / partial memory range, reopen) run on an ADF file and on an
+    HDF5 file; every answer is compared between the two back ends.  The only latitude is where the plain-C oracle of
+    harness/c06_api_h.c itself answers differently per back end (ADF's documented refusal of a converting transfer with
+    a partial memory range): those lines are not compared.  ADF converts through a temporary buffer and
+    cgi_convert_data, HDF5 converts in place: a difference is a failing input of the property."""
+    from checks import C06
+    api_h = vlib.build_harness("c06_api_h", ["c06_api_h.c"])
+    conv_h = vlib.build_harness("c06_conv_h", ["c06_conv_h.c"])
+    pool = C06.Pool(ck.rng, conv_h, 200)
+    md = dist.setdefault("mll", {"scripts": 0, "ops": 0, "compared": 0, "latitude": 0})
+    for rnd in range(rounds):
+        combos = [(e, s_, m) for e in ("coord", "field", "array") for s_ in C06.ENTRY_W[e][0] for m in C06.ENTRY_W[e][1]]
+        ck.rng.shuffle(combos)
+        for c0 in range(0, len(combos), 12):
+            part = combos[c0:c0 + 12]
+            N = ck.rng.randint(3, 9)
+            ops, types = C06.gen_api_script(ck.rng, pool, "adf", N, part, "m%d%s" % (rnd, "abcdefghijklmnop"[c0 // 12 % 16]))
+
+            def both(script):
+                out = {}
+                for be in ("adf", "hdf5"):
+                    path = os.path.join(ck.work, "mll_%s.cgns" % be)
+                    il, outcome, ol, _ = C06.run_api(api_h, script, be, N, path, want_model=False)
+                    out[be] = (il, outcome, ol)
+                return out
+
+            def difference(script, tys):
+                r = both(script)
+                (ia, oa, ola), (ih, oh, olh) = r["adf"], r["hdf5"]
+                if oa != "ok" or oh != "ok":
+                    return {"outcome_adf": oa, "outcome_hdf5": oh}
+                for i, o in enumerate(script):
+                    la = ia[i] if i < len(ia) else None
+                    lh = ih[i] if i < len(ih) else None
+                    if i < len(ola) and i < len(olh) and ola[i] != olh[i]:
+                        continue                                   # documented latitude
+                    ty = tys[i] if tys and i < len(tys) else None
+                    if o.split()[1:2] == ["arrayread"] and (la is None or lh is None):
+                        ty = None
+                    if not C06.same_line(ty, la, lh):
+                        return {"op_index": i, "op": o[:300], "adf": (la or "<no output>")[:300], "hdf5": (lh or "<no output>")[:300]}
+                return None
+
+            r = both(ops)
+            md["scripts"] += 1; md["ops"] += len(ops)
+            md["latitude"] += sum(1 for a, b in zip(r["adf"][2], r["hdf5"][2]) if a != b)
+            md["compared"] += sum(1 for a, b in zip(r["adf"][2], r["hdf5"][2]) if a == b)
+            ck.cov["traces_validated_against_impl"] += 2
+            ck.case(hashlib.sha1(("mll" + "\n".join(ops)).encode()).hexdigest(),
+                    sample={"level": "mll", "N": N, "script": [o[:100] for o in ops[:5]] + ["..."]})
+            d = difference(ops, types)
+            if d:
+                small = vlib.ddmin(ops, lambda sub: difference(sub, C06.api_types(sub)) is not None, max_tests=120)
+                d2 = difference(small, C06.api_types(small)) or d
+                ck.violation({"level": "mll", "N": N, "script": small, "difference": d2,
+                              "oracle": "ADF vs HDF5 on the same mid-level program (harness/c06_api_h.c)",
+                              "replay_hint": "printf '%s\\n' <script lines> | .build/h/c06_api_h impl /tmp/x.cgns adf|hdf5 " + str(N)})
+                return
+
+
 def run(ck):
     thorough = ck.tier == "thorough"
     vlib.build_impl()
@@ -162,6 +225,8 @@ def run(ck):
                       "difference": nodedb.equivalence_failure(rr) or f,
                       "third_party_TreeDB_says": {k: ("agrees" if v is None else v) for k, v in third.items()},
                       "oracle": "ADF vs HDF5 on the same program"})
+    if not ck.violations:
+        mll_level(ck, dist, 4 if thorough else 1)
     corr = names_level(ck, dist) if not ck.violations else []
     if corr and not ck.violations:
         # the transcription of a validator no longer matches the code, and no name of the common subset misbehaves:
@@ -175,8 +240,30 @@ def run(ck):
     ck.extra["input_distribution"] = dist
 
 
+def replay_mll(ck, r):
+    from checks import C06
+    api_h = vlib.build_harness("c06_api_h", ["c06_api_h.c"])
+    outs = {}
+    for be in ("adf", "hdf5"):
+        il, outcome, ol, _ = C06.run_api(api_h, r["script"], be, r["N"], os.path.join(ck.work, "replay_%s.cgns" % be), want_model=False)
+        outs[be] = (il, outcome, ol)
+    tys = C06.api_types(r["script"])
+    for i, o in enumerate(r["script"]):
+        la = outs["adf"][0][i] if i < len(outs["adf"][0]) else None
+        lh = outs["hdf5"][0][i] if i < len(outs["hdf5"][0]) else None
+        if outs["adf"][2][i] != outs["hdf5"][2][i]:
+            continue
+        if not C06.same_line(tys[i], la, lh):
+            print("replay: ADF and HDF5 differ at op %d %s: adf %s hdf5 %s" % (i, o[:120], (la or "")[:200], (lh or "")[:200]))
+            return 1
+    print("replay: holds"); return 0
+
+
 def replay(ck, path):
     r = json.load(open(path))
+    if r.get("level") == "mll":
+        vlib.build_impl()
+        return replay_mll(ck, r)
     vlib.build_impl(); exe = vlib.build_harness("cgio_h", ["cgio_h.c"]); vlib.build_modelrun("c02")
     script = r.get("script_full") or r.get("script")
     if not script:
